@@ -434,15 +434,24 @@ def r09_4(ctx):
                 break
         vlq = [g | 0x80 for g in reversed(groups[1:])] + [groups[0]]
         msg_bytes = [0xff, 0x60] + vlq + payload
-        for kind in ('list',):
-            outs = ai.explore(lambda: ai.call_function(fb, [ClassRef(cls), AList(list(msg_bytes), kind)], {}))
+        for kind in ('list', 'tuple', 'bytes', 'bytearray') if ln in (1, 128, 129, 16384) else ('list',):
+            holder = {}
+
+            def thunk(kind=kind):
+                arg = AList(list(msg_bytes), kind)
+                holder['arg'] = arg
+                return ai.call_function(fb, [ClassRef(cls), arg], {})
+            outs = ai.explore(thunk)
             ok = len(outs) == 1 and outs[0].kind == 'return' and isinstance(outs[0].value, AObj) \
                 and outs[0].value.cls is not None and outs[0].value.cls.name == 'UnknownMetaMessage' \
                 and outs[0].value.attrs.get('type_byte') == 0x60 \
                 and wire.value_equal(outs[0].value.attrs.get('data'), tuple(payload))
-            ctx.require(ok, 'R09.4', f'from_bytes(payload {ln})', w,
-                        f'a meta event with a {ln} byte payload (length prefix {vlq}) is parsed as '
+            ctx.require(ok, 'R09.4', f'from_bytes({kind}, payload {ln})', w,
+                        f'a meta event with a {ln} byte payload (length prefix {vlq}) given as a {kind} is parsed as '
                         f'{str(outs)[:200]}', construct=f'{fb.qname}::length({len(vlq)}-byte prefix)')
+            ctx.require(list(holder['arg'].items) == list(msg_bytes), 'R09.4', f'from_bytes({kind}, payload {ln}).argument', w,
+                        'from_bytes changes the bytes it is given (the continuation bits of the length are cleared in the caller\'s buffer)',
+                        construct=f'{fb.qname}::mutates-argument')
         # wrong length -> ValueError
         if ln in (1, 128):
             for delta in (-1, +1):
